@@ -9,25 +9,26 @@ Notation I2 := syn_set2.
 
 Lemma toks_ok : cex_C13s I1 I2 = []. Proof. vm_compute. reflexivity. Qed.
 
+Lemma junk_ok : cex_junk_C13s I1 I2 = []. Proof. vm_compute. reflexivity. Qed.
+
 Theorem C13_stream : forall s1 s2, sc_init I1 = Ret s1 -> sc_init I2 = Ret s2 ->
-  forall toks, Forall (good I2) toks ->
-  exists evs os2 os1,
-    run (scan_machine I2) s2 (flat_map tok2 toks) = Ret (s2, os2) /\
-    run (scan_machine I1) s1 (flat_map tok1 toks) = Ret (s1, os1) /\
-    said os2 = map (fun e => Ok (Some e)) evs /\ said os1 = map (fun e => Ok (Some e)) evs /\
-    List.length evs = List.length toks.
-Proof. intros s1 s2 H1 H2. exact (C13_stream_sound I1 I2 s1 s2 H1 H2 toks_ok). Qed.
+  forall xs, Forall (good_s I2) xs ->
+  exists rs : list (list sc_result * list sc_result),
+    run (scan_machine I2) s2 (flat_map stok2 xs) = Ret (s2, flat_map fst rs) /\
+    run (scan_machine I1) s1 (flat_map stok1 xs) = Ret (s1, flat_map snd rs) /\
+    Forall2 elem_ok xs rs.
+Proof. intros s1 s2 H1 H2. exact (C13_stream_sound I1 I2 s1 s2 H1 H2 toks_ok junk_ok). Qed.
 
 Check C13_stream : forall s1 s2, sc_init I1 = Ret s1 -> sc_init I2 = Ret s2 ->
-  forall toks, Forall (good I2) toks ->
-  exists evs os2 os1,
-    run (scan_machine I2) s2 (flat_map tok2 toks) = Ret (s2, os2) /\
-    run (scan_machine I1) s1 (flat_map tok1 toks) = Ret (s1, os1) /\
-    said os2 = map (fun e => Ok (Some e)) evs /\ said os1 = map (fun e => Ok (Some e)) evs /\
-    List.length evs = List.length toks.
+  forall xs, Forall (good_s I2) xs ->
+  exists rs : list (list sc_result * list sc_result),
+    run (scan_machine I2) s2 (flat_map stok2 xs) = Ret (s2, flat_map fst rs) /\
+    run (scan_machine I1) s1 (flat_map stok1 xs) = Ret (s1, flat_map snd rs) /\
+    Forall2 elem_ok xs rs.
 Print Assumptions C13_stream.
 (* the theorem is about something: how many key sequences it covers, and both initial states exist *)
 Eval vm_compute in ("considered_tokens"%string, N.of_nat (List.length (considered_toks I2))).
-Eval vm_compute in ("evaluations"%string, N.of_nat (List.length dom3)).
+Eval vm_compute in ("passthrough_bytes"%string, N.of_nat (List.length (filter passthrough all_bytes))).
+Eval vm_compute in ("evaluations"%string, N.of_nat (List.length dom3) + 256).
 Example inits_exist : exists s1 s2, sc_init I1 = Ret s1 /\ sc_init I2 = Ret s2.
 Proof. eexists. eexists. split; reflexivity. Qed.
